@@ -14,8 +14,10 @@ import (
 	gomysql "github.com/go-sql-driver/mysql"
 
 	sql2 "seata.apache.org/seata-go/pkg/datasource/sql"
+	"seata.apache.org/seata-go/pkg/datasource/sql/datasource"
 	"seata.apache.org/seata-go/pkg/datasource/sql/datasource/base"
 	dsmysql "seata.apache.org/seata-go/pkg/datasource/sql/datasource/mysql"
+	"seata.apache.org/seata-go/pkg/protocol/branch"
 	"seata.apache.org/seata-go/pkg/protocol/codec"
 	"seata.apache.org/seata-go/pkg/remoting/loadbalance"
 
@@ -76,6 +78,10 @@ func runC20(c *Ctx) {
 							db := w.DB
 							if useXA {
 								db = xa
+							}
+							if k%5 == 4 && !useXA {
+								// a statement on a table that does not exist: the metadata lookup fails
+								db.ExecContext(ctx, fmt.Sprintf("UPDATE nosuch_%d_%d SET n = 1 WHERE id = 1", g, k))
 							}
 							if _, e := db.ExecContext(ctx, "UPDATE "+table+" SET n = n + 1 WHERE id = ?", g*2+k%2); e != nil {
 								return e
@@ -195,6 +201,16 @@ func runC20(c *Ctx) {
 			time.Sleep(50 * time.Millisecond)
 		}
 		open := len(w.Eng.OpenTxns()) - sessions0
+		// connections checked out of the shared pools and never given back
+		inUse := w.DB.Stats().InUse + xa.Stats().InUse
+		for _, bt := range []branch.BranchType{branch.BranchTypeAT, branch.BranchTypeXA} {
+			datasource.GetDataSourceManager(bt).GetCachedResources().Range(func(_, v interface{}) bool {
+				if res, ok := v.(*sql2.DBResource); ok && res.GetDB() != nil {
+					inUse += res.GetDB().Stats().InUse
+				}
+				return true
+			})
+		}
 		undoLeft := len(w.Eng.Dump("undo_log"))
 		obs := fmt.Sprintf("terminated=%d tx=%d", b2i(terminated), atomic.LoadInt64(&txDone))
 		c.Out.Case(cid, "C20", fmt.Sprintf("stress %d %d", nWorkers, perWorker), obs)
@@ -204,6 +220,8 @@ func runC20(c *Ctx) {
 			class, detail = "lock_up", fmt.Sprintf("%d of %d transactions finished within 60 s", atomic.LoadInt64(&txDone), nWorkers*perWorker)
 		case atomic.LoadInt64(&txErr) > 0:
 			class, detail = "crash", fmt.Sprintf("%d transactions panicked", txErr)
+		case inUse > 0:
+			class, detail = "connection_leak", fmt.Sprintf("%d pooled connections still checked out after every transaction finished", inUse)
 		case open > 0:
 			class, detail = "connection_left_in_transaction", fmt.Sprintf("%d more connections inside a transaction than before", open)
 		case round > 0 && goroutines1 > goroutines0+2:
